@@ -1,0 +1,46 @@
+//go:build verif
+
+package tls
+
+// Exports for the negotiation checks (client accepts only what it offered / advertised).
+// Read-only accessors; no existing line changes.
+
+// VerifStateCurveID returns the key-exchange group recorded in a ConnectionState
+// (zero for an RSA key exchange).
+func VerifStateCurveID(cs ConnectionState) CurveID { return cs.testingOnlyCurveID }
+
+// VerifStateDidHRR reports whether the handshake went through a HelloRetryRequest.
+func VerifStateDidHRR(cs ConnectionState) bool { return cs.testingOnlyDidHRR }
+
+// VerifConfigVersions returns Config.MinVersion / MaxVersion of the connection's own config
+// (as left by SetTLSVers) and whether an ECH config list is set.
+func VerifConfigVersions(u *UConn) (minVers, maxVers uint16, ech bool) {
+	return u.config.MinVersion, u.config.MaxVersion, u.config.EncryptedClientHelloConfigList != nil
+}
+
+// VerifClientSupportedVersions is Config.supportedVersions(roleClient) of the connection's config.
+func VerifClientSupportedVersions(u *UConn) []uint16 { return u.config.supportedVersions(roleClient) }
+
+// VerifSuite12 reports whether mutualCipherSuite would return a suite for id when id is offered
+// (the suite is implemented for TLS 1.0-1.2), and whether that suite uses an ECDHE key agreement.
+func VerifSuite12(id uint16) (known, ecdhe bool) {
+	s := mutualCipherSuite([]uint16{id}, id)
+	if s == nil {
+		return false, false
+	}
+	return true, s.flags&suiteECDHE != 0
+}
+
+// VerifSuite13 reports whether mutualCipherSuiteTLS13 would return a suite for id when offered.
+func VerifSuite13(id uint16) bool { return mutualCipherSuiteTLS13([]uint16{id}, id) != nil }
+
+// VerifCurveKnown reports whether curveForCurveID knows the group (classical ECDHE curves).
+func VerifCurveKnown(id CurveID) bool { _, ok := curveForCurveID(id); return ok }
+
+// VerifDowngradeCanaries returns the two RFC 8446 downgrade sentinels.
+func VerifDowngradeCanaries() (tls12, tls11 string) {
+	return downgradeCanaryTLS12, downgradeCanaryTLS11
+}
+
+// VerifHelloRetryRequestRandom returns the magic ServerHello.random of a HelloRetryRequest.
+func VerifHelloRetryRequestRandom() []byte { return append([]byte(nil), helloRetryRequestRandom...) }
